@@ -283,6 +283,20 @@ def run_case(case, ctx):
                 "row-vector": X[0],
                 "row-list": X[0].tolist(),
             }
+            d_ = X.shape[1]
+            # shapes that invite broadcasting slips: exactly n_dim rows, a single row as (1, n_dim), Fortran order, a view
+            sq = np.asarray(model.pdf(X[:d_]), float)
+            ctx.check("c06.pdf-forms", sq.shape == (d_,) and bool(np.all(sq == a[:d_])), "joint pdf of exactly n_dim rows differs from the same rows inside a longer array", form="n-equals-n_dim", **info)
+            one = np.asarray(model.pdf(X[:1]), float)
+            ctx.check("c06.pdf-forms", one.shape == (1,) and bool(np.all(one == a[:1])), "joint pdf of a (1, n_dim) array differs", form="(1,n_dim)", **info)
+            fo = np.asarray(model.pdf(np.asfortranarray(X)), float)
+            ctx.check("c06.pdf-forms", fo.shape == a.shape and bool(np.all(fo == a)), "joint pdf of a Fortran-ordered array differs", form="fortran", **info)
+            wide = np.c_[X, X][:, : d_]
+            vw = np.asarray(model.pdf(wide), float)
+            ctx.check("c06.pdf-forms", vw.shape == a.shape and bool(np.all(vw == a)), "joint pdf of a non-contiguous view differs", form="view", **info)
+            for _rep in range(3):  # the third call, not only the second
+                again = np.asarray(model.pdf(X), float)
+            ctx.check("c06.pdf-forms", bool(np.all(again == a)), "joint pdf differs on a repeated call", form="repeat", **info)
             for name, val in forms.items():
                 try:
                     g = np.asarray(model.pdf(val), float)
